@@ -16,6 +16,7 @@ from pyPRISM.core.Domain import Domain
 from pyPRISM.core.MatrixArray import MatrixArray
 from pyPRISM.core.Space import Space
 
+from .. import suite as SUITE
 from .. import refmodel as R
 
 PID = 'C07'
@@ -151,6 +152,8 @@ def draw_spacing(rng):
 
 
 def cases(ctx):
+    if ctx.mine(1):
+        yield {'kind': 'repo_suite'}          # the repository's own tests, run in-process under this check's monitors
     rng = ctx.rng('c07')
     n = ctx.budget(600, 40000)
     hi = 4098 if ctx.thorough() else 2050
@@ -190,6 +193,8 @@ def make_array(kind, L, rng, x):
 
 
 def run_case(ctx, case):
+    if case.get('kind') == 'repo_suite':
+        return SUITE.run(ctx, pattern='[!C]*_test.py')       # everything but the CalcPRISM tests (17 s of solving that adds no events here)
     rng = np.random.default_rng(case['aseed'])
     L0, sp = int(case['L']), float(case['sp'])
     if case['aseed'] % 4 == 1:
